@@ -1,7 +1,7 @@
 """Shared by harness/c08.py and harness/c10.py: scratch world, configuration generators, runners for
 robsd-config / robsd-step / robsd-exec, stderr canonicalisation, the driver round trips that resolve the
 model's environment queries against the real file system."""
-import errno, glob, os, pwd, re, subprocess
+import errno, glob, os, pwd, re, subprocess, threading
 from concurrent.futures import ThreadPoolExecutor
 import common
 from common import hexs
@@ -154,15 +154,21 @@ def classify_msg(msg):
 def classify_stderr(err, conf):
     if not err:
         return []
-    lines = err.split(b'\n')
-    if lines and lines[-1] == b'':
-        lines.pop()
+    if err.endswith(b'\n'):
+        err = err[:-1]
+    # a message may quote a name that contains a newline: split only where a new message starts
+    lines = re.split(rb'\n(?=robsd-(?:config|step|exec): )', err)
     return [classify_line(l, conf) for l in lines]
 
 
+_nlock = threading.Lock()
+
+
 def write_case_files(world, case):
-    world.n += 1
-    conf = os.path.join(world.dir, 'cases', '%d.conf' % world.n)
+    with _nlock:            # called from worker threads
+        world.n += 1
+        n = world.n
+    conf = os.path.join(world.dir, 'cases', '%d.conf' % n)
     open(conf, 'wb').write(world.sub(bytes.fromhex(case['text'])))
     return conf
 
